@@ -18,6 +18,17 @@ CHECKS = {
             "Lean 4 theorems + model/code correspondence (differential, exhaustive small scope)", "7 C17"),
 }
 
+CHECKS["C16"] = ("Proof: the model of NumberLineCli (processLine fold with one counter over all files) equals the property's "
+                 "numbering rule for every text, start, increment, width (run_eq_spec); length, verbatim, padding and idempotence "
+                 "(any second configuration, positive start/increment) theorems. Tie: differential CLI runs (files, stdin, "
+                 "CR/LF mixes), exhaustive over all 3-line (quick) / 4-line (thorough) texts on 6 line shapes.",
+                 "Lean 4 theorems + model/code correspondence (differential, exhaustive small scope)", "7 C16")
+CHECKS["C15"] = ("Proof: listing->ASCII BASIC shape and 7-bit; ASCII BASIC->listing equals the non-empty-lines specification for "
+                 "every byte file and both endings (loop invariant), never an empty line; round trip = normalised non-blank "
+                 "lines (uses universal-newline and rstrip lemmas over the generated whitespace table). Tie: differential CLI "
+                 "runs of moto_lst2bas/moto_bas2lst incl. non-ASCII and odd whitespace, exhaustive over {CR,LF,A,blank}^<=6/9.",
+                 "Lean 4 theorems + model/code correspondence (differential, exhaustive small scope)", "7 C15")
+
 PENDING = {}
 
 
